@@ -232,6 +232,15 @@ theorem Fixed.terminates (g : Garbage) (buf : List Nat) (u : Bool) (c : Cur) (hl
     rw [hn] at this
     omega
 
+/-- The verdict and the accesses of the repaired loop are a function of the
+    file's bytes alone: whatever lies outside the stream is never consulted.
+    (For the current code this is false: `truncation_not_rejected` in C12.) -/
+theorem Fixed.garbage_independent (g g' : Garbage) (buf : List Nat) (u : Bool) (c : Cur) (fuel : Nat)
+    (hl : loadObs buf u = .ok c) :
+    Fixed.run g buf fuel c = Fixed.run g' buf fuel c ∧
+    Fixed.runReads g buf fuel c = Fixed.runReads g' buf fuel c :=
+  Ovni.Emu.Stream.Fixed.run_indep g g' buf fuel c (loadObs_inv g buf u c hl).1
+
 /-- The three inputs that break the current code are refused cleanly by the repaired cursor. -/
 example : Fixed.run (fun _ => 0) hangBuf 3 (cur0 false) = .err .jumbosize ∧
     Fixed.run (fun _ => 0) tornBuf 3 (cur0 false) = .err .incomplete ∧
